@@ -263,6 +263,34 @@ def rule_forwarding(ctx, rid):
     """Cycles.__init__(phase_edge=...) must reach the criteria function stored per cycle."""
     P = ctx.P
     fi = P.func('emd.cycles.Cycles.__init__')
+    # sibling defaults: the criteria function, the labelling routine and the container use one default tolerance
+    from .common import mk_algebra
+    from ..paths import State
+    alg = mk_algebra()
+    polys = {}
+    for q in (IS_GOOD, 'emd.cycles.get_cycle_vector', 'emd.cycles.Cycles.__init__'):
+        f2 = P.func(q)
+        d = f2.defaults.get('phase_edge')
+        if d is None:
+            continue
+        try:
+            polys[q] = (alg.poly(Evaluator(P)._ev(d, State(), f2.module, f2, 0)[0][0]), unparse(d), f2)
+        except Exception:
+            polys[q] = (None, unparse(d), f2)
+    c = 'is_good, get_cycle_vector and the container share one default edge tolerance'
+    if IS_GOOD in polys:
+        ref = polys[IS_GOOD]
+        for q, (pl, txt, f2) in polys.items():
+            if q == IS_GOOD:
+                continue
+            if pl is None or ref[0] is None:
+                ctx.undecided(rid, f2, c, 'default %s not a closed form' % txt)
+            elif pl != ref[0]:
+                ctx.violation(rid, f2, c, 'default phase_edge is %s here and %s in is_good: with default arguments the '
+                              'quality flag / good-cycle labelling uses a different tolerance from the documented criteria'
+                              % (txt, ref[1]))
+            else:
+                ctx.passed(rid, f2, c)
     params = [p for p in ('phase_edge',) if p in fi.all_formals()]
     recs = []
 
